@@ -69,6 +69,12 @@ focus=['client/connection.go (Conn, Config, NewConfig, Client, the Connect path,
 'client/line.go and client/commands.go (ParseLine, parseUserHost, Line methods, argslen, cutNewLines, splitMessage, indexFragment, splitArgs, Raw and all command methods)',
 'client/dispatch.go, client/handlers.go, client/state_handlers.go (handler sets and nodes, dispatch, LogPanic, capability/SASL handling, capSet, h_001/h_433/h_NICK/h_CTCP/h_PING/h_REGISTER, all state handlers)',
 'the state package (state/tracker.go, state/nick.go, state/channel.go)']
+rename_focus=[
+ 'package client, and this time mostly RENAMING and REORGANISING: give clearer names to UNEXPORTED identifiers (functions, methods, types, struct fields, constants, local helper closures, receiver names, files) and move declarations between files, keeping every exported name and all behaviour; mix in a few small structural clean-ups. Spread the six refactorings over connection.go, dispatch.go, handlers.go, state_handlers.go, line.go and commands.go; each refactoring should rename several related identifiers consistently (for example the handler-set types and their fields and methods; the flood-control fields and rateLimit/write; the split helpers; the capability-set type and its methods; the internal registration helpers)',
+ 'package state, and this time mostly RENAMING and REORGANISING: give clearer names to UNEXPORTED identifiers (the stateTracker/nick/channel types, their fields such as nicks/chans/me/lookup, unexported methods such as addNick/delNick/addChannel/delChannel/parseModes/isOn, helper functions, constants, receiver names, files) and move declarations between files, keeping every exported name (the Tracker interface, Nick, Channel, ChanMode, NickMode, ChanPrivs and their exported fields/methods) and all behaviour; mix in a few small structural clean-ups. Each refactoring should rename several related identifiers consistently']
 for i,a in enumerate(letters):
-    open(f'{R}/{a}.prompt.txt','w').write(rt.replace('@R@',R).replace('@ID@',a).replace('@FOCUS@',focus[i%4]))
+    f=focus[i%4]
+    if len(sys.argv)>3 and sys.argv[3]=='rename' and i>=2:
+        f=rename_focus[i-2]
+    open(f'{R}/{a}.prompt.txt','w').write(rt.replace('@R@',R).replace('@ID@',a).replace('@FOCUS@',f))
 print('ok', len(props), 'seed prompts,', len(letters), 'refactor prompts;', len(done), 'earlier refactorings listed')
